@@ -13,6 +13,8 @@ from ..c02gen import FOREIGN, REAL, SEPS, WORDS_EN, gen_string
 
 LEVEL = "exploration"
 CFG = "SPECIFICATION Spec\nCONSTANTS\n  GuardLookahead = %s\n  MaxLen = %d\nINVARIANT IndexInRange\nCHECK_DEADLOCK FALSE\n"
+CONNECT = ["\u0441", "\u043f\u043e", "\u0434\u043e", "\u043e\u0442", "\u0438", "\u0432", "to", "from", "until", "a", "de", "\u00e0", "al", "del", "y", "e", "i", "u", "o", "bis", "von",
+           "-", "\u2013", "\u2014", "~", "/", "\u81f3", "\u304b\u3089", "\u307e\u3067", "\u0625\u0644\u0649", "\u0645\u0646", "\u0938\u0947", "&", "+"]
 FILLER = ["the meeting was moved", "lorem ipsum dolor", "we arrived", "and then", "see you", "report", "deadline", "—", "...", "(draft)",
           "it was", "before", "after", "between", "until", "version 2.0", "room 101", "call 555-1234", "price 12.50", "№ 7", "ok"]
 
@@ -50,7 +52,12 @@ def run(ctx):
             parts = []
             for _ in range(rng.randint(1, 5)):
                 r = rng.random()
-                if r < 0.55:
+                if r < 0.2:       # two date pieces joined by a connective word ("from 5 May to 7 May", "\u0441 12 \u044f\u043d\u0432\u0430\u0440\u044f \u043f\u043e 30 \u0430\u043f\u0440\u0435\u043b\u044f")
+                    nums = [x for x in ps if x[:1].isdigit()] or ps
+                    parts.append("%s %s %s" % (rng.choice(ps), rng.choice(CONNECT), rng.choice(nums)))
+                    if rng.random() < 0.5:
+                        parts[-1] = rng.choice(CONNECT) + " " + parts[-1]
+                elif r < 0.55:
                     parts.append(rng.choice(ps))
                 elif r < 0.85:
                     parts.append(rng.choice(FILLER))
@@ -70,6 +77,23 @@ def run(ctx):
                 t = text_for(L) if k >= len(ps) else ps[k]          # each bare piece once: a text that IS a single date word
                 st = None if rng.random() < 0.6 else {"RELATIVE_BASE": [2021, 6, 15, 12, 0, 0, 0]}
                 cases.append({"text": t, "languages": [L], "settings": st, "withlang": rng.random() < 0.5})
+        import unicodedata
+
+        def script(w):
+            for ch in w:
+                if ch.isalpha():
+                    return unicodedata.name(ch, "?").split(" ")[0]
+            return ""
+        for L in order:       # every connective of the language's script between / before date pieces that start with a number
+            ps = pieces(L)
+            sc = script(next((m for m in W["langs"][L]["months"] if m), ""))
+            nums = [x for x in ps if x[:1].isdigit()]
+            for cn in CONNECT + [x for x in W["langs"][L].get("skip", []) + W["langs"][L].get("pertain", []) if x]:
+                if script(cn) not in ("", sc):
+                    continue
+                for head in (rng.choice(ps) + " ", "", rng.choice(FILLER) + " "):
+                    cases.append({"text": "%s%s %s %s %s" % (head, cn, rng.choice(nums), rng.choice(CONNECT), rng.choice(nums)), "languages": [L],
+                                  "settings": None, "withlang": False})
         for _ in range(1500 if ctx.quick() else 20000):      # autodetection and multi-language lists
             L = rng.choice(order)
             langs = None if rng.random() < 0.6 else rng.sample(order, rng.randint(2, 3))
